@@ -163,7 +163,17 @@ def copies_report_after_the_request(ctx):
                 mk = kwarg(ctor, 'main_kwargs')
                 d = {k.value: v for k, v in zip(mk.keys, mk.values) if isinstance(k, ast.Constant)} if isinstance(mk, ast.Dict) else {}
                 sz = d.get('size')
-                ok = isinstance(sz, ast.Name) and any(isinstance(v, ast.Call) and (dotted(v.func) or '').endswith('_get_transfer_size') for _, v in q.local_defs(f, sz.id))
+                # the size is computed by a package function from the part's own index (C14.b judges that function)
+                szv = q.resolve_local(f, sz) if sz is not None else None
+                rr = ctx.r.resolve(szv, f, _count=False) if isinstance(szv, ast.Call) else None
+                ok = rr is not None and rr.kind == 'package' and len(rr.targets) == 1 and rr.targets[0].module.name == 'copies'
+                if rr is None and szv is not None:
+                    # computed in place from the part size / the total (C14.b judges the cases)
+                    from .c14 import copy_part_size_cases
+                    cases = copy_part_size_cases(ctx, f) or []
+                    # at least two cases, one of them the remainder of the total (the last part is not a full part)
+                    ok = len(cases) >= 2 and not any(isinstance(v_, ast.Constant) for _, v_ in cases) \
+                        and any(isinstance(v_, ast.BinOp) and isinstance(v_.op, ast.Sub) and 'transfer_future.meta.size' in norm(v_.left) for _, v_ in cases)
                 ctx.ob(f, "CopyPartTask 'size' = _get_transfer_size(...)", ok, f'part progress amount is {norm(sz)}')
                 ctx.ob(f, "CopyPartTask 'callbacks' = progress callbacks", q.ntext(f, d.get('callbacks')) == "get_callbacks(transfer_future, 'progress')", 'wrong callbacks')
     f = ctx.func('copies.CopySubmissionTask._submit_copy_request')
